@@ -57,6 +57,11 @@ def _merge_stubs_overloads(obj: Module | Class, stubs: Module | Class) -> None:
 
 
 def _merge_stubs_members(obj: Module | Class, stubs: Module | Class) -> None:
+    # Stubs can be merged into the target of an alias (see below): work on the target itself,
+    # since members set on an alias are not stored anywhere.
+    if obj.is_alias:
+        obj = obj.final_target  # type: ignore[assignment]
+
     # Merge imports to later know if objects coming from the stubs were imported.
     obj.imports.update(stubs.imports)
 
